@@ -916,10 +916,19 @@ pub fn do_apply_detached(w: &mut World, p: usize, g: usize, k: u64) -> VResult<b
         return Ok(false);
     }
     let pre = capture(w, p, g, "apply_detached_commit");
+    let bc = crate::prng::mix(&[w.seed, w.step_no as u64, 0xbc]) % 3 == 0;
+    if bc {
+        w.stats.probe("detached-apply-through-backwards-compatible-entry-point");
+    }
     let mut group = w.parties[p].mems[g].group.take().unwrap();
     let r = guarded(&prop, "apply_detached_commit", || {
         let s = mls_rs::group::CommitSecrets::from_bytes(&secrets)?;
-        group.apply_detached_commit(s)
+        // a third of the time through the entry point that also understands commit secrets of older versions
+        if bc {
+            group.apply_detached_commit_backwards_compatible(s)
+        } else {
+            group.apply_detached_commit(s)
+        }
     });
     w.parties[p].mems[g].group = Some(group);
     let r = r?;
